@@ -313,9 +313,12 @@ let handle toks =
        | Inr _ -> "ERR"
        | Inl (t', pr) ->
            let (_, ch) = c_challenge t' [ZZ.of_int 110] in
+           (* the model verifier on the model proof (same objects verified twice on the Go side) *)
+           let v = match c_mp_check (t_new (bytes_of_hex label)) (Lazy.force cfg) pr cs ys zs with
+             | Some (_, true) -> "true,true" | Some (_, false) -> "false,false" | None -> "ERR,ERR" in
            "OK " ^ proof_bytes pr ^ " " ^ frhex ch
            ^ " C " ^ String.concat "," (List.map (fun c -> hex_of_bytes (bw_bytes c)) cs)
-           ^ " Y " ^ String.concat "," (List.map frhex ys))
+           ^ " Y " ^ String.concat "," (List.map frhex ys) ^ " V " ^ v)
   (* multiproof verification: mpv <label> <proofhex> (<C point tok> <z> <y hex>)*  *)
   | "mpv" :: label :: ph :: rest ->
       let rec triples = function
